@@ -8,6 +8,53 @@ from pyvc.run import BResult
 from . import scen, validators, view as V
 
 
+class KernelPreconditionMonitor:
+    """run-time link between the deductive kernels and their call sites: the preconditions that contracts/kernel_join.py ASSUMES
+    (derived from _cleanup_modified_blocks / insert) are checked at every real call of join_blocks made during a bounded run"""
+
+    def __init__(self):
+        self.problems = []
+        self.calls = 0
+
+    def __enter__(self):
+        import importlib
+        import gtirb
+        self.ED = importlib.import_module("gtirb_rewriting._modify.edit")
+        self.real = self.ED.join_blocks
+        mon = self
+
+        def checked(cache, block1, block2):
+            mon.calls += 1
+            try:
+                rc = cache.reference_cache
+                if isinstance(block1, gtirb.CodeBlock) and isinstance(block2, gtirb.CodeBlock):
+                    for b, nm in ((block1, "block1"), (block2, "block2")):
+                        outs = list(b.outgoing_edges)
+                        if b.size == 0 and any(e.label.type != gtirb.EdgeType.Fallthrough for e in outs):
+                            mon.problems.append("join_blocks called with an EMPTY %s that has non-fallthrough out-edges %s" % (nm, sorted(e.label.type.name for e in outs)))
+                    if block1.size == 0:
+                        f1, f2 = cache.functions_by_block.get(block1), cache.functions_by_block.get(block2)
+                        if f1 != f2:
+                            mon.problems.append("join_blocks called with an empty block1 in another function than block2")
+                        elif f1 is not None and cache.is_entry_block(block2) and not cache.is_entry_block(block1):
+                            mon.problems.append("join_blocks called with an empty block1 in front of an entry block")
+                end_label = bool(block2.size and block1.size and any(s.at_end for s in rc.get_references(block1)))
+            except Exception as ex:      # noqa -- the monitor must never disturb the run
+                mon.problems.append("monitor error %s: %s" % (type(ex).__name__, str(ex)[:80]))
+                end_label = False
+            res = mon.real(cache, block1, block2)          # raises UnjoinableBlocksError when refused
+            if end_label:
+                # only an ACCEPTED join would move the label past block2's bytes (the contract's precondition concerns accepted joins)
+                mon.problems.append("join_blocks ACCEPTED a non-empty block2 while block1 carried an end-of-block label")
+            return res
+        self.ED.join_blocks = checked
+        return self
+
+    def __exit__(self, *e):
+        self.ED.join_blocks = self.real
+        return False
+
+
 def execute(shape, edits):
     run = scen.run(shape, edits)
     m = run["m"]
@@ -52,17 +99,19 @@ def run_scenario(shape, edits, vals, expect_exception=None):
     for e in edits:
         scen.register(ctx, blocks[e[4]], e[:4])
     exc = None
-    with scen.PatchRecorder() as rec:
+    with scen.PatchRecorder() as rec, KernelPreconditionMonitor() as kmon:
         try:
             ctx.apply()
         except Exception as ex:  # noqa
             exc = ex
     info["records"], info["exc"] = rec.records, exc
+    info["kernel_precondition_problems"] = sorted(set(kmon.problems))
+    info["join_calls"] = kmon.calls
     if exc is not None:
         return info, [("EXC/%s" % type(exc).__name__, str(exc)[:120])]
     v1 = V.view(ir, m)
     ed = V.Edits(info)
-    problems = []
+    problems = [("KERNEL/preconditions-of-the-join-kernel-hold-at-its-call-sites", p) for p in info["kernel_precondition_problems"]]
     for val in vals:
         problems += val(info, v1, ed)
     return info, problems
